@@ -137,7 +137,7 @@ fn explore(ctx: &mut Ctx, pl: &Pl, rows: &[V], ss: &[u64], ts: &[Option<u64>]) {
                     Some(t) => lo.saturating_add(*t as usize).min(r.len()),
                     None => r.len(),
                 };
-                let cut_inside = t.is_some() && (*s as usize + t.unwrap() as usize) < r.len();
+                let cut_inside = t.is_some() && (*s as usize).saturating_add(t.unwrap() as usize) < r.len();
                 let mut nontrivial = g.is_some();
                 if *t == Some(0) {
                     ctx.guard("take-zero");
@@ -195,7 +195,7 @@ fn explore(ctx: &mut Ctx, pl: &Pl, rows: &[V], ss: &[u64], ts: &[Option<u64>]) {
                     ok = false;
                 }
                 // the same input spread over two or three files gives the same result (the limits count rows of the run)
-                if inputs.len() >= 2 && (*s > 0 || t.is_some()) && (s + t.unwrap_or(0)) % 2 == 1 {
+                if inputs.len() >= 2 && (*s > 0 || t.is_some()) && s.wrapping_add(t.unwrap_or(0)) % 2 == 1 {
                     let cutpoints: Vec<Vec<usize>> = if inputs.len() >= 3 { vec![vec![1], vec![1, 2]] } else { vec![vec![1]] };
                     for cuts in cutpoints {
                         let mut files: Vec<(String, Vec<u8>)> = Vec::new();
@@ -206,7 +206,7 @@ fn explore(ctx: &mut Ctx, pl: &Pl, rows: &[V], ss: &[u64], ts: &[Option<u64>]) {
                         }
                         // a file that holds no value (empty, or white space only) between the others changes nothing
                         if cuts.len() == 1 {
-                            files.insert(1, ("empty.json".to_string(), if (s + t.unwrap_or(0)) % 4 == 1 { Vec::new() } else { b" \n\n".to_vec() }));
+                            files.insert(1, ("empty.json".to_string(), if s.wrapping_add(t.unwrap_or(0)) % 4 == 1 { Vec::new() } else { b" \n\n".to_vec() }));
                             ctx.guard("file-without-values-between-files");
                         }
                         // `--merge` takes an optional value: it must not be the word before the file names
